@@ -11,12 +11,14 @@ import Driver.RngOps
 import Driver.CollectiveOps
 import Driver.SnapshotOps
 import Driver.JsonOps
+import Driver.CommitOps
 open Lean Ts.Drv
 
 namespace Ts.Drv
 
 /-- All registered op handlers; first match wins. -/
 def handlers : List Handler := [
+  CommitOps.handle,
   JsonOps.handle,
   SnapshotOps.handle,
   CollectiveOps.handle,
